@@ -84,6 +84,11 @@ CHECKS = {
   "note": "trace bound 25 x base resend timeout + 15 s; liveness model-checked for small windows/message counts; with keepalive on a closure during the fault prefix counts as visible failure",
   "technique": "TLA+ liveness and timed model checking (TLC) + trace validation by a timed observer specification",
  },
+ "C05": {
+  "text": "LNC.tla composes the stack of one secured connection (Write -> Noise record header+body -> one GBN message each -> DATA packets through the relay's one-way stream with drops, breaks, re-attachment, a relay that may die -> in-order exactly-once delivery or connection down -> ReadMessage -> Read of at most 32 KiB); TLC checks StreamIntegrity (byte conservation through every stage, read is a prefix of written), InOrderOnce, CiphertextOnly (two leaky mutants must be caught) for every interleaving of small configurations and CompletesOrFails under fairness; real connections (mailbox Server/Client, real GBN, real Noise XX/KK, NoiseGrpcConn) are driven in real time through an in-process relay with every write-size class up to 65535 both ways, concurrent random mixes under relay drops/delays/stream breaks for a finite period, and a relay that stops for good; each session trace (application writes, every write of the Noise layer to the connection below, every message the relay receives/queues/drops/delivers with GBN type, sequence number, length and leak-detector verdict, every Read with position, length and content check, failures, completion verdict) is validated against LNC.tla.",
+  "note": "relay = harness stand-in, not aperture; ciphertext-only decided by a leak detector (application plaintext blocks, auth data, passphrase entropy, static keys) plus the framing-length relation, not cryptanalysis; real-time patience 90 s",
+  "technique": "TLA+ model checking (TLC, safety + liveness) + trace validation of real end-to-end sessions against the specification",
+ },
  "C11": {
   "text": "Session.tla models Server.Accept and Client.Dial step by step (enter, wait for the previous connection's Done, recompute the rendezvous from the connection data, tear the old connection down on a change, hand out the new one), the connection data (remote key => key-derived SID and KK pattern) and the two ends of the Noise handshake feeding the keys back; TLC checks AtMostOneOpen, KeyedConnsUseK, SameRendezvous, OnlyThePairedClient, OldBoxesGone for every interleaving of a server, the pairing client and a second passphrase-holding client, with and without prior pairing and key-keeping handshake versions, FreshAfterClose under fairness, and two mutants of the specification that must be caught; the real mailbox.Server/Client/ServerConn/ClientConn with real GBN and NoiseGrpcConn are driven in real time against an in-process relay through scripted sessions (pairing and reconnects closed from either side, pre-paired, handshake version 1, a second passphrase client, Dial while open, relay failure, lost last pairing act) and every session trace (calls/returns with the stream ids really used and the count of earlier connections still open, handshake results, closes, mailbox creations/deletions) is validated against Session.tla.",
   "note": "real-time runs against the harness relay (not aperture); expectations wait up to 60 s each; a pairing whose last act is lost leaves client and server on different rendezvous (modelled: HalfPaired) - the property speaks of pairings in which both keys were exchanged",
